@@ -109,6 +109,7 @@ func ruleCompletion13(c *Ctx, r *Report) {
 	for _, t := range []target{
 		{"(*" + pkgHS + ".fsm13).transitionAfterACK", lastSend, "completion by acknowledgement"},
 		{"(*" + pkgHS + ".fsm13).send", lastSend, "completion by sending"},
+		{"(*" + pkgHS + ".fsm13).handleReceivedFlight", lastSend, "completion by an implicit acknowledgement"},
 	} {
 		fn := c.need(r, rule, t.name)
 		if fn == nil {
@@ -314,4 +315,84 @@ func ruleCookieFlightNeverResent(c *Ctx, r *Report) {
 		}
 	}
 	r.Floor(rule, n, 4)
+}
+
+// ruleNoUnparsableFlight13 (C02): the DTLS 1.3 state machine never hands a received handshake
+// record to the flight parser while it sits in a flight that has no parser: that path ends in a
+// fatal internal error. A flight without a parser is one in which only an acknowledgement is
+// awaited (the client's last flight); what can still arrive there is a retransmission of the peer's
+// previous flight, or - when the acknowledgement was lost - the peer's first post-handshake
+// message, which acknowledges the flight implicitly (RFC 9147 7.1). Decided per flight constant:
+// the parser registry is evaluated for the constant, and the receive handler is explored with the
+// current flight bound to it and a handshake record present.
+func ruleNoUnparsableFlight13(c *Ctx, r *Report) {
+	const rule = "no-unparsable-flight"
+	flights := c.enumConsts(pkgF13, "Flight")
+	reg := c.need(r, rule, pkgF13+".getFlightParser")
+	recv := c.need(r, rule, "(*"+pkgHS+".fsm13).handleReceivedFlight")
+	if reg == nil || recv == nil || len(flights) == 0 {
+		return
+	}
+	followModule := func(callee *ssa.Function) bool { return inModule(callee) }
+	n := 0
+	for _, name := range sortedKeys(flights) {
+		fv := flights[name]
+		// does the registry know a parser for this flight?
+		w := &Walk{Fn: reg, Assume: func(v ssa.Value) (Val, bool) {
+			if len(reg.Params) > 0 && v == ssa.Value(reg.Params[0]) {
+				return vInt(fv), true
+			}
+			return unknown, false
+		}}
+		w.FromEntry()
+		has, hasNot := false, false
+		for _, ro := range w.Returns {
+			if len(ro.Raw) == 2 {
+				if k, isK := constBool(ro.Raw[1]); isK {
+					if k {
+						has = true
+					} else {
+						hasNot = true
+					}
+					continue
+				}
+			}
+			has, hasNot = true, true
+		}
+		if has == hasNot {
+			r.Unk(rule, name+":registry", c.pos(reg.Pos()), "cannot decide whether the flight has a parser")
+			continue
+		}
+		if has {
+			continue
+		}
+		n++
+		r.Sites += len(recv.Blocks)
+		w2 := &Walk{Fn: recv, Follow: followModule, FollowDeferring: true, Assume: func(v ssa.Value) (Val, bool) {
+			if _, f, _, ok := fieldLoad(v); ok {
+				switch f {
+				case "currentFlight":
+					return vInt(fv), true
+				case "HasHandshake":
+					return vBool(true), true
+				}
+			}
+			return unknown, false
+		}}
+		w2.FromEntry()
+		var at ssa.Instruction
+		for in := range w2.Reached {
+			if cl, ok := in.(*ssa.Call); ok && strings.HasSuffix(calleeName(&cl.Call), "flight13.Parse") {
+				if at == nil || in.Pos() < at.Pos() {
+					at = in
+				}
+			}
+		}
+		pos := c.pos(recv.Pos())
+		if at != nil {
+			pos = c.ipos(at)
+		}
+		r.Check(at == nil, rule, short(recv)+":"+name, pos, "a handshake record received in "+name+" (no parser) never reaches the flight parser", "a handshake record received while the state machine is in "+name+", which has no parser, is handed to the flight parser: the endpoint answers with a fatal internal error. After a lost final acknowledgement the peer's first post-handshake message (the session ticket) kills a handshake that both sides had completed")
+	}
+	r.Floor(rule, n, 1)
 }
